@@ -89,6 +89,8 @@ def check(ctx):
     ctx.rule("R7", "every stage whose output is captured, piped or redirected carries the capture-always marker, whatever per-command overlay it already has (nested commands of an alias stage write into the stage's stream, not the terminal)", floor=2)
     ctx.rule("R9", "a merge / to-pipe spelling (`2>out`, `o>e`, `a>p` ...) is an operator only as a whole word: the tokenizer's pattern asserts a word end after it, so `cmd 2>out.log`, `cmd 1>err.txt`, `cmd a>perf.log` redirect into the named file", floor=1)
     ctx.rule("R8", "a redirect target is opened the ordinary blocking way: the descriptor a stage inherits carries no status flags of xonsh's choosing (no custom opener, no O_NONBLOCK / O_NDELAY: on a FIFO or tty the stage would then read EAGAIN or write short)", floor=1)
+    ctx.rule("R10", "a threaded alias stage gets the stream objects its resolved handles stand for, in every combination: a requested merge (stderr == subprocess.STDOUT) shares stdout's object even when stdout has no handle of its own, no request and no handle means the session's own stderr, an own handle means a writer on that handle (decision table of the selection in ProcProxyThread.run over the abstract handle values)", floor=6)
+    ctx.rule("R11", "what the pipeline later reads from a threaded alias's `.stdout` / `.stderr` is a reader on the pipe or None, for both streams alike: the two attributes are normalised by the same chain of cases in ProcProxyThread.__init__ (a request flag left in `.stderr` - subprocess.STDOUT of `e>o` is the integer -2 - makes the command fail after it ran)", floor=2)
     ctx.rule("R5", "sibling stage-kind handlers agree on the merge flags (subprocess.STDOUT on stderr, the `2` flag on stdout)", floor=3)
 
     tk = ctx.repo.module(TK)
@@ -449,6 +451,8 @@ def check(ctx):
         raise AnalysisError(f"{SP}:cmds_to_specs: only {n_paths} feasible wiring path(s)")
 
     _capture_marker(ctx)
+    _alias_stream_selection(ctx)
+    _reader_attr_siblings(ctx)
     _merge_spelling_boundary(ctx, tk, tf, redir_map)
     # ---- R8: how redirect targets are opened
     spm = ctx.repo.module(SP)
@@ -474,6 +478,150 @@ def check(ctx):
                 ctx.ob("R8", f"{SP}:{q8}", f"`{short(c, 60)}` opens something non-blocking in the module that wires the stages' streams", False, key=f"{q8}|nonblocking-open", where=loc(c))
     if not n8:
         raise AnchorMissing(f"{SP}:safe_open: the open call")
+
+
+
+def _alias_stream_selection(ctx):
+    """ProcProxyThread.run turns (c2pwrite, errwrite) - resolved by _get_handles - into the objects the alias writes to.
+    _get_handles encodes `e>o` as errwrite = c2pwrite, which is -1 == -1 when stdout has no handle: the selection can
+    tell 'merge requested' from 'nothing requested' only through what __init__ remembered of the request."""
+    from ..engine import dtable as _dt
+
+    px = ctx.repo.module(PX)
+    run = px.func("ProcProxyThread.run")
+    st = f"{PX}:ProcProxyThread.run"
+    init = px.func("ProcProxyThread.__init__", raw=True)
+    errp = next((a.arg for a in init.args.args + init.args.kwonlyargs if a.arg == "stderr"), None)
+    # what __init__ remembers of the request: self.<attr> = <... stderr == subprocess.STDOUT ...>
+    merge_attrs = set()
+    for n in walk_local(init):
+        if isinstance(n, ast.Assign) and any(isinstance(c, ast.Compare) and "subprocess.STDOUT" in unparse(c) and errp and errp in df.names_read(c) for c in ast.walk(n.value)):
+            merge_attrs |= {unparse(t) for t in n.targets if isinstance(t, ast.Attribute) and unparse(t.value) == "self"}
+    OUT = ERR = None
+    k = None
+    for i, s_ in enumerate(run.body):
+        for c in calls_in(s_):
+            nm = call_name(c) or ""
+            if nm.endswith("STDOUT_DISPATCHER.register") and c.args and isinstance(c.args[0], ast.Name):
+                OUT, k = c.args[0].id, i if k is None else k
+            if nm.endswith("STDERR_DISPATCHER.register") and c.args and isinstance(c.args[0], ast.Name):
+                ERR, k = c.args[0].id, i if k is None else k
+    if OUT is None or ERR is None:
+        raise AnalysisError(f"{st}: the objects registered with the stdout/stderr dispatchers were not found")
+    paths_ = [p_ for p_ in _dt.paths(run.body[:k], loops="skip") if p_.outcome == "fall"]
+    if not paths_:
+        raise AnalysisError(f"{st}: no path reaches the alias call")
+
+    def ev(e, env):
+        if isinstance(e, ast.Constant):
+            return e.value
+        if isinstance(e, ast.UnaryOp) and isinstance(e.op, ast.USub) and isinstance(e.operand, ast.Constant):
+            return -e.operand.value
+        if isinstance(e, ast.UnaryOp) and isinstance(e.op, ast.Not):
+            v = ev(e.operand, env)
+            return None if v is None else (not v)
+        if isinstance(e, (ast.Attribute, ast.Name)):
+            return env.get(unparse(e))
+        if isinstance(e, ast.BoolOp):
+            vs = [ev(v, env) for v in e.values]
+            if isinstance(e.op, ast.And):
+                return False if any(v is False for v in vs) else (None if any(v is None for v in vs) else True)
+            return True if any(v is True for v in vs) else (None if any(v is None for v in vs) else False)
+        if isinstance(e, ast.Compare) and len(e.ops) == 1:
+            a, b = ev(e.left, env), ev(e.comparators[0], env)
+            if a is None or b is None:
+                return None
+            op = e.ops[0]
+            if isinstance(op, (ast.Eq, ast.Is)):
+                return a == b
+            if isinstance(op, (ast.NotEq, ast.IsNot)):
+                return a != b
+            if isinstance(op, ast.Gt):
+                return a > b
+            if isinstance(op, ast.GtE):
+                return a >= b
+            if isinstance(op, ast.Lt):
+                return a < b
+            if isinstance(op, ast.LtE):
+                return a <= b
+        return None
+
+    def kind(p_):
+        e, o = p_.env.get(ERR), p_.env.get(OUT)
+        if e is None:
+            return "unknown"
+        te = unparse(e)
+        if o is not None and te == unparse(o):
+            return "stdout-object"
+        if te == "sys.stderr":
+            return "session-stderr"
+        if any(isinstance(c, ast.Call) and call_name(c) in ("open", "io.open", "os.fdopen") and c.args and unparse(c.args[0]) == "self.errwrite" for c in ast.walk(e)):
+            return "own-writer"
+        return "other:" + te[:40]
+
+    SCEN = (
+        ("merge requested, stdout has no handle (`$[al e>o]`)", dict(c=-1, e=-1, m=True), {"stdout-object"}),
+        ("merge requested, stdout has a handle (`al e>o | next`)", dict(c=7, e=7, m=True), {"stdout-object"}),
+        ("nothing requested, no handles (`$[al]`)", dict(c=-1, e=-1, m=False), {"session-stderr"}),
+        ("stderr has its own handle, stdout none (`$[al e> f]`)", dict(c=-1, e=9, m=False), {"own-writer"}),
+        ("both have their own handles", dict(c=7, e=9, m=False), {"own-writer"}),
+        ("only stdout has a handle (`al > f`)", dict(c=7, e=-1, m=False), {"session-stderr"}),
+        ("one descriptor behind both (`al a> f`)", dict(c=7, e=7, m=False), {"stdout-object", "own-writer"}),
+    )
+    for text, sc, want in SCEN:
+        env = {"self.c2pwrite": sc["c"], "self.errwrite": sc["e"]}
+        for a_ in merge_attrs:
+            env[a_] = sc["m"]
+        got = set()
+        for p_ in paths_:
+            if any(ev(e_, env) is (not pol_) for e_, pol_ in p_.conds):
+                continue
+            got.add(kind(p_))
+        ok = bool(got) and got <= want
+        ctx.ob("R10", st, f"{text}: the alias's stderr is {' or '.join(sorted(want))}", ok, key=f"alias-stderr|{sorted(sc.items())}", where=loc(run), detail=None if ok else f"selected: {sorted(got)}" + ("" if merge_attrs else "; __init__ keeps no record of `stderr == subprocess.STDOUT`, so a requested merge without a stdout handle and no request at all are the same -1 == -1 to the selection"))
+
+
+
+def _reader_attr_siblings(ctx):
+    px = ctx.repo.module(PX)
+    init = px.func("ProcProxyThread.__init__")
+    st = f"{PX}:ProcProxyThread.__init__"
+    import re as _re
+
+    def chain(n):
+        out = []
+        while True:
+            out.append((n.test, n.body))
+            if len(n.orelse) == 1 and isinstance(n.orelse[0], ast.If):
+                n = n.orelse[0]
+            else:
+                if n.orelse:
+                    out.append((None, n.orelse))
+                return out
+
+    def norm(txt, attr, rd):
+        return _re.sub(rf"\b{rd}\b", "<READ-FD>", _re.sub(rf"\b{attr}\b", "<STREAM>", txt))
+
+    found = {}
+    for attr, rd in (("stdout", "c2pread"), ("stderr", "errread")):
+        for n in walk_local(init):
+            if isinstance(n, ast.If) and not (isinstance(parent(n), ast.If) and n in parent(n).orelse) and f"self.{rd}" in unparse(n.test):
+                cases = []
+                for test, body in chain(n):
+                    stores = sorted(norm(unparse(b), attr, rd) for b in body if isinstance(b, ast.Assign) and any(unparse(t) == f"self.{attr}" for t in b.targets))
+                    if any(isinstance(x, ast.If) for b in body for x in ast.walk(b)):
+                        stores.append("<nested>")
+                    cases.append((norm(unparse(test), attr, rd) if test is not None else "<else>", tuple(stores)))
+                found[attr] = (n, cases)
+    if set(found) != {"stdout", "stderr"}:
+        raise AnalysisError(f"{st}: the normalisation chains of .stdout/.stderr were not found ({sorted(found)})")
+    so, se = found["stdout"][1], found["stderr"][1]
+    tests_o, tests_e = [c[0] for c in so], [c[0] for c in se]
+    for t in tests_o:
+        ctx.ob("R11", st, f"the case `{t}` of the .stdout normalisation has its sibling in the .stderr normalisation", t in tests_e, key=f"reader-attr|stderr-lacks|{t}", where=loc(found["stderr"][0]))
+    for t in tests_e:
+        if t not in tests_o:
+            ctx.ob("R11", st, f"the case `{t}` of the .stderr normalisation has its sibling in the .stdout normalisation", False, key=f"reader-attr|stdout-lacks|{t}", where=loc(found["stdout"][0]))
 
 
 def _merge_spelling_boundary(ctx, tk, tf, redir_map):
